@@ -3,6 +3,7 @@ package rules
 import (
 	"go/ast"
 	"go/token"
+	"go/types"
 )
 
 // recvDrivenLoop recognises the explicit form of `for v := range ch`: a `for` statement without condition whose body
@@ -56,6 +57,205 @@ func (m *pbfModel) recvDrives(op *chanOp) bool {
 			ue, _ := op.node.(*ast.UnaryExpr)
 			return ue != nil && ast.Unparen(ch) == ast.Unparen(ue.X)
 		case *ast.FuncLit, *ast.FuncDecl:
+			return false
+		}
+	}
+	return false
+}
+
+// recvLoopOf returns the loop statement a receiving operation drives (the range statement itself, or the receive-driven
+// `for` of recvDrives) and, for the explicit form, the `if !ok {...}` statement that is the loop's regular exit.
+func (m *pbfModel) recvLoopOf(op *chanOp) (loop ast.Stmt, body *ast.BlockStmt, regular ast.Stmt) {
+	if op == nil || op.u == nil {
+		return nil, nil, nil
+	}
+	if rs, ok := op.node.(*ast.RangeStmt); ok && op.kind == "range" {
+		return rs, rs.Body, nil
+	}
+	if !m.recvDrives(op) {
+		return nil, nil, nil
+	}
+	par := parentsOf(m.p, op.u.fi)
+	for p := par[op.node]; p != nil; p = par[p] {
+		if fs, ok := p.(*ast.ForStmt); ok {
+			return fs, fs.Body, fs.Body.List[1]
+		}
+	}
+	return nil, nil, nil
+}
+
+// loopEarlyExit finds a statement in the body of a receiving loop that leaves the loop before the channel is closed:
+// a return, a goto, a break that targets the loop (unlabelled outside nested breakable statements, or labelled with the
+// loop's own label), or a call of panic / runtime.Goexit / os.Exit / log.Fatal*. Function literals are not descended
+// into. It returns the position of the first such statement, or token.NoPos.
+func (m *pbfModel) loopEarlyExit(op *chanOp) token.Pos {
+	loop, body, regular := m.recvLoopOf(op)
+	if loop == nil || body == nil {
+		return token.NoPos
+	}
+	label := ""
+	if ls, ok := parentsOf(m.p, op.u.fi)[loop].(*ast.LabeledStmt); ok {
+		label = ls.Label.Name
+	}
+	found := token.NoPos
+	var walk func(n ast.Node, breakable int)
+	walk = func(n ast.Node, breakable int) {
+		if n == nil || found != token.NoPos || n == regular {
+			return
+		}
+		switch x := n.(type) {
+		case *ast.FuncLit:
+			return
+		case *ast.ReturnStmt:
+			found = x.Pos()
+			return
+		case *ast.BranchStmt:
+			switch x.Tok {
+			case token.GOTO:
+				found = x.Pos()
+			case token.BREAK:
+				if (x.Label == nil && breakable == 0) || (x.Label != nil && x.Label.Name == label && label != "") {
+					found = x.Pos()
+				} else if x.Label != nil && x.Label.Name != label {
+					// a label of an enclosing statement of the loop leaves the loop too; labels of nested statements do not
+					nested := false
+					ast.Inspect(body, func(k ast.Node) bool {
+						if ls, ok := k.(*ast.LabeledStmt); ok && ls.Label.Name == x.Label.Name {
+							nested = true
+						}
+						return !nested
+					})
+					if !nested {
+						found = x.Pos()
+					}
+				}
+			case token.CONTINUE:
+				if x.Label != nil && x.Label.Name != label {
+					nested := false
+					ast.Inspect(body, func(k ast.Node) bool {
+						if ls, ok := k.(*ast.LabeledStmt); ok && ls.Label.Name == x.Label.Name {
+							nested = true
+						}
+						return !nested
+					})
+					if !nested {
+						found = x.Pos()
+					}
+				}
+			}
+			return
+		case *ast.CallExpr:
+			if name := builtinName(m.info, x); name == "panic" {
+				found = x.Pos()
+				return
+			}
+			if se, ok := ast.Unparen(x.Fun).(*ast.SelectorExpr); ok {
+				if id, ok := se.X.(*ast.Ident); ok {
+					if pn, ok := m.info.Uses[id].(*types.PkgName); ok {
+						q := pn.Imported().Path() + "." + se.Sel.Name
+						switch q {
+						case "runtime.Goexit", "os.Exit", "log.Fatal", "log.Fatalf", "log.Fatalln", "log.Panic", "log.Panicf", "log.Panicln":
+							found = x.Pos()
+							return
+						}
+					}
+				}
+			}
+		}
+		nb := breakable
+		switch n.(type) {
+		case *ast.ForStmt, *ast.RangeStmt, *ast.SwitchStmt, *ast.TypeSwitchStmt, *ast.SelectStmt:
+			nb++
+		}
+		ast.Inspect(n, func(k ast.Node) bool {
+			if k == nil || k == n {
+				return k == n
+			}
+			walk(k, nb)
+			return false
+		})
+	}
+	for _, s := range body.List {
+		walk(s, 0)
+	}
+	return found
+}
+
+// firstSendOnClass reports whether the bare send op is necessarily the first value sent on its channel: it is not
+// inside a loop of its unit, every other send on the class is in the same unit (seen from the same call context) and
+// comes later in the source, and the unit is entered once per pipeline (a goroutine body, not a helper).
+func (m *pbfModel) firstSendOnClass(op *chanOp, sameClass []*chanOp) bool {
+	if op == nil || op.u == nil || op.u.goSite == nil {
+		return false
+	}
+	par := parentsOf(m.p, op.u.fi)
+	for p := par[op.node]; p != nil; p = par[p] {
+		switch p.(type) {
+		case *ast.ForStmt, *ast.RangeStmt:
+			return false
+		case *ast.FuncLit, *ast.FuncDecl:
+			p = nil
+		}
+		if p == nil {
+			break
+		}
+	}
+	for _, o := range sameClass {
+		if o == op || o.kind != "send" {
+			continue
+		}
+		if o.u != op.u || o.pos < op.pos {
+			return false
+		}
+	}
+	return true
+}
+
+// loopTakesFirstValue reports whether the receiving loop of op is a top-level statement of a goroutine body and no
+// statement before it can return, block on a channel or leave the goroutine: the goroutine then always reaches the
+// loop and receives the first value sent (or sees the close).
+func (m *pbfModel) loopTakesFirstValue(op *chanOp) bool {
+	loop, _, _ := m.recvLoopOf(op)
+	if loop == nil || op.u.goSite == nil {
+		return false
+	}
+	par := parentsOf(m.p, op.u.fi)
+	var top ast.Node = loop
+	if ls, ok := par[loop].(*ast.LabeledStmt); ok {
+		top = ls
+	}
+	blk, ok := par[top].(*ast.BlockStmt)
+	if !ok {
+		return false
+	}
+	switch par[blk].(type) {
+	case *ast.FuncLit, *ast.FuncDecl:
+	default:
+		return false
+	}
+	for _, s := range blk.List {
+		if s == top {
+			return true
+		}
+		bad := false
+		ast.Inspect(s, func(k ast.Node) bool {
+			switch x := k.(type) {
+			case *ast.FuncLit:
+				return false
+			case *ast.ReturnStmt, *ast.SelectStmt, *ast.SendStmt, *ast.GoStmt, *ast.BranchStmt:
+				bad = true
+			case *ast.UnaryExpr:
+				if x.Op == token.ARROW {
+					bad = true
+				}
+			case *ast.CallExpr:
+				if builtinName(m.info, x) == "panic" {
+					bad = true
+				}
+			}
+			return !bad
+		})
+		if bad {
 			return false
 		}
 	}
